@@ -100,6 +100,17 @@ func searchGen(r *common.Rng, n int, shard int, out *common.Out) {
 	}
 	starts := poslib.StartPositions()
 	for i := 0; i < n; i++ {
+		// one case in five: a root built around a rare structural coincidence (see poslib.MotifPosition), searched shallowly
+		if r.Chance(1, 5) {
+			if fen, ok := poslib.MotifPosition(r); ok {
+				cancel := -1
+				if r.Chance(1, 4) {
+					cancel = r.Intn(40)
+				}
+				out.Line("%s", strings.Join(capCost([]string{spec(fen, "", 1+r.Intn(2), cancel)}), " ;; "))
+				continue
+			}
+		}
 		nsearch := 1
 		if r.Chance(1, 3) {
 			nsearch = 2 + r.Intn(2)
